@@ -1,3 +1,57 @@
-From TM Require Import Base Frame.
-Theorem C01_placeholder : fc_value (fc_new 1) = 1.
+(* C01 -- requests reach the server exactly as issued, in Modbus wire format. *)
+From TM Require Import Base Frame Pdu Crc RtuCodec TcpCodec Framed Client Server Spec PduEncode
+  FramedProofs TcpProofs RtuProofs RtuCarried StreamProofs ClientProofs Histories ServerProofs TypedProofs EndToEnd.
+
+(* 1. the PDU encoder is the independent spec encoder (big-endian fields, coils LSB first in byte i/8) *)
+Theorem C01_pdu_is_spec : forall m r, req_ok r = true -> req_size r <= 253 ->
+  enc_req m r = Val (spec_req_pdu r) /\ len (spec_req_pdu r) = req_size r.
+Proof. exact enc_req_spec. Qed.
+Theorem C01_packed_coils_by_index : forall bs, spec_pack bs = pack_coils bs.
+Proof. exact spec_pack_eq. Qed.
+
+(* 2. the server-side decoder inverts it: every typed request and every raw custom request whose code
+   is < 0x80 and not one of the modelled codes *)
+Theorem C01_decode_encode : forall r, req_size r <= 253 -> canonical_req r = true -> dec_req (spec_req_pdu r) = Val r.
+Proof. exact dec_req_spec_pdu. Qed.
+
+(* 3. a typed method issues exactly the request it names (read_coils(a,q) = call(ReadCoils(a,q)), ...) *)
+Theorem C01_method_map : forall p m st req bg, snd (typed p m st req bg) = snd (call p m st req bg).
+Proof. exact typed_state. Qed.
+
+(* 4. the frame the client writes: MBAP header (transaction id, protocol 0, length = PDU+1, unit id) or
+   slave id, then the spec PDU, (then the CRC) -- with the currently selected slave / unit id *)
+Theorem C01_client_frame_tcp : forall m tid uid r, req_ok r = true -> req_size r <= 253 -> tid < 65536 ->
+  tcp_client_enc m (tid, uid) r = Val (tcp_frame tid uid (spec_req_pdu r)).
+Proof. exact client_frame_tcp. Qed.
+Theorem C01_client_frame_rtu : forall m tid uid r, req_ok r = true -> req_size r <= 253 ->
+  rtu_client_enc m (tid, uid) r = Val (rtu_frame uid (spec_req_pdu r)).
+Proof. exact client_frame_rtu. Qed.
+(* ... written exactly once by a call that gets as far as a reply, for every write script *)
+Theorem C01_frame_written_once : forall p m st req bg i,
+  call_reply p m st req bg = Some i -> wbuf (wio_ (snd (call p m st req bg))) = []
+  /\ exists fr, client_enc p m (req_hdr p st) req = Val fr
+                /\ accepted (wio_ (snd (call p m st req bg))) = accepted (wio_ st) ++ wbuf (wio_ st) ++ fr.
+Proof. exact call_completed_flushes. Qed.
+(* ... stamped with the slave selected by the last set_slave *)
+Theorem C01_set_slave_selects_unit : forall p st s, snd (req_hdr p (set_slave st s)) = s.
 Proof. reflexivity. Qed.
+
+(* 5. that frame is a valid frame for the server with exactly the issued request and slave id ... *)
+Theorem C01_frame_valid_for_server_tcp : forall tid uid r,
+  req_size r <= 253 -> canonical_req r = true -> tid < 65536 -> uid < 256 ->
+  valid_req_frame (tcp_frame tid uid (spec_req_pdu r)) ((tid, uid), r).
+Proof. exact request_frame_valid_tcp. Qed.
+Theorem C01_frame_valid_for_server_rtu : forall s r,
+  req_size r <= 253 -> canonical_req r = true -> rtu_req_supported r = true ->
+  valid_rtu_req (rtu_frame s (spec_req_pdu r)) ((0, s), r).
+Proof. exact request_frame_valid_rtu. Qed.
+(* ... and a stream of valid frames, however fragmented, is served request by request: the service is
+   handed each request exactly once, tagged with its slave id ([served] starts each step with
+   TCall (snd h) req) *)
+Theorem C01_server_delivers : forall p m fs is cs b rd tl svc w fuel,
+  Forall2 (server_valid p) fs is -> Forall nonempty cs ->
+  b ++ concat cs = concat fs -> (rd = false -> b = []) ->
+  process (length fs + fuel) p m (mkR b false rd false) w (datas cs ++ tl) svc =
+  served p m is svc w (fun svc' w' =>
+    process fuel p m (mkR [] false (match fs with [] => rd | _ => true end) false) w' tl svc').
+Proof. exact process_serves. Qed.
